@@ -288,6 +288,46 @@ func runC02(c *core.Ctx) {
 			}
 		}
 	}
+	// parents that reached their shape through a growing Append: the full
+	// (start,end) sweep, whatever capacity the growth produced
+	for _, t := range dyn.ElemTypes() {
+		for ch := 1; ch <= 7; ch++ {
+			for _, sz := range [][2]int{{2, 1}, {1, 2}, {4, 3}, {3, 5}} {
+				gi++
+				if !c.Mine(gi) {
+					continue
+				}
+				if c.Quick() && (ch == 4 || ch == 6) {
+					continue
+				}
+				caseID := fmt.Sprintf("grown-root/%s/C%d/%d+%d", t.Name, ch, sz[0], sz[1])
+				if !c.Want(caseID) {
+					continue
+				}
+				w := mon.NewWorld(t)
+				pb := t.Alloc(signal.Allocator{Channels: ch, Length: sz[0], Capacity: sz[0]})
+				stampAll(w, pb)
+				pv := w.Adopt(pb, "p")
+				src := t.Alloc(signal.Allocator{Channels: ch, Length: sz[1], Capacity: sz[1]})
+				stampAll(w, src)
+				sv := w.Adopt(src, "src")
+				r := &c02run{c: c, t: t, w: w, inst: "Slice[" + t.Name + "]", caseID: caseID, depth: 2,
+					root: map[string]any{"channels": ch, "frames_before_growth": sz[0], "frames_appended": sz[1], "scenario": "p grown by Append, then sliced"}}
+				if ps := w.Append(pv, sv); len(ps) > 0 {
+					report(c, r.inst+"|regrow", caseID, ps, r.root)
+					continue
+				}
+				frames := pv.M.Cap / pv.M.C
+				for s := -1; s <= frames+2; s++ {
+					for e := max(s-1, frames-3); e <= frames+2; e++ {
+						r.try(pv, s, e, "grown", 1)
+					}
+				}
+				c.Obs("grown_parents_swept", 1)
+			}
+		}
+	}
+	c.Floor("grown_parents_swept", 50)
 	c.Floor("slices_repeated_after_parent_growth", 50)
 	c.Floor("panics_as_required", 100)
 	c.Floor("valid_ranges", 100)
